@@ -161,6 +161,21 @@ func (s *c09w) inReqs(r *request) bool {
 	return false
 }
 
+// lastAnswersOpenRequest: repeating the last acknowledgement would not be a duplicate but a genuine answer, because a request
+// with the same packet id is waiting on this connection (the client has retransmitted it after a resume).
+func (s *c09w) lastAnswersOpenRequest() bool {
+	id, ok := packet.GetID(s.last)
+	if !ok {
+		return false
+	}
+	for _, r := range s.reqs {
+		if r.id == id {
+			return true
+		}
+	}
+	return false
+}
+
 // checkRetrans: right after an accepted CONNACK on a reused session the client must retransmit everything recorded
 // (publishes flagged duplicate), nothing else.
 func (s *c09w) checkRetrans(want []string) {
@@ -355,7 +370,7 @@ func c09(x *explore.X, pr c09params) {
 				}
 				if pr.Extra {
 					evs = append(evs, "ack-unknown-id")
-					if s.last != nil {
+					if s.last != nil && !s.lastAnswersOpenRequest() {
 						evs = append(evs, "ack-duplicate")
 					}
 				}
